@@ -35,9 +35,98 @@ type BProc struct {
 type BCase struct {
 	WS    histeng.WS `json:"workspace"`
 	Procs []BProc    `json:"procs"`
+	// Orphan: the holder alone is killed (SIGKILL to the grog pid, not to its process group) after KillMs while its
+	// command keeps running for seconds; the lock of a dead build must not stay taken because a child of it lives on
+	Orphan bool `json:"orphan,omitempty"`
+	KillMs int  `json:"kill_ms,omitempty"`
+}
+
+func runOrphan(c BCase) (pbt.Result, error) {
+	res := pbt.Result{Classes: []string{"orphan-holder"}}
+	base, err := os.MkdirTemp("", "c10orph-")
+	if err != nil {
+		return pbt.Result{Discard: true}, nil
+	}
+	defer os.RemoveAll(base)
+	sb, err := histeng.NewSandbox(base, os.Getenv("GROG_BIN"))
+	if err != nil {
+		return pbt.Result{Discard: true}, nil
+	}
+	w := histeng.WS{Files: map[string]string{"top.txt": "x"}, Workers: 2, Algo: "xxh3",
+		Targets: []histeng.Target{{Pkg: "", Name: "slow", Inputs: []string{"top.txt"}, OutFiles: []string{"slow.out"}, SlowMs: 9000},
+			{Pkg: "", Name: "quick", Inputs: []string{"top.txt"}, OutFiles: []string{"quick.out"}, Deps: nil}}}
+	if err := sb.Sync(w); err != nil {
+		return pbt.Result{Discard: true}, nil
+	}
+	pidTrace := filepath.Join(sb.ExtDir, "trace.pid")
+	_ = os.WriteFile(pidTrace, nil, 0o644)
+	// output goes to files: with a pipe, Wait would not return before the orphaned command has closed its copy of it
+	nstart := 0
+	start := func(patterns ...string) (*exec.Cmd, func() string, error) {
+		cmd := exec.Command(sb.Bin, append([]string{"build"}, patterns...)...)
+		cmd.Dir = sb.WS
+		cmd.Env = append(sb.Env(), "TRACE_PID="+pidTrace)
+		cmd.SysProcAttr = &syscall.SysProcAttr{Setpgid: true}
+		nstart++
+		logPath := filepath.Join(base, fmt.Sprintf("out-%d.log", nstart))
+		f, err := os.Create(logPath)
+		if err != nil {
+			return nil, nil, err
+		}
+		cmd.Stdout, cmd.Stderr = f, f
+		err = cmd.Start()
+		f.Close()
+		return cmd, func() string { b, _ := os.ReadFile(logPath); return string(b) }, err
+	}
+	holder, hout, err := start("//:slow")
+	if err != nil {
+		return pbt.Result{Discard: true}, nil
+	}
+	defer syscall.Kill(-holder.Process.Pid, syscall.SIGKILL) // the orphaned command, eventually
+	// wait until the holder's command runs (so the lock is certainly taken), then a little longer, then kill grog alone
+	deadline := time.Now().Add(20 * time.Second)
+	for {
+		data, _ := os.ReadFile(pidTrace)
+		if strings.Contains(string(data), fmt.Sprintf("S %d //:slow", holder.Process.Pid)) {
+			break
+		}
+		if time.Now().After(deadline) {
+			_ = holder.Process.Kill()
+			_ = holder.Wait()
+			return pbt.Result{Discard: true}, nil // the machine is too busy to even start the command
+		}
+		time.Sleep(20 * time.Millisecond)
+	}
+	time.Sleep(time.Duration(c.KillMs) * time.Millisecond)
+	_ = syscall.Kill(holder.Process.Pid, syscall.SIGKILL)
+	_ = holder.Wait()
+	killedAt := time.Now()
+	next, nout, err := start("//:quick")
+	if err != nil {
+		return pbt.Result{Discard: true}, nil
+	}
+	done := make(chan error, 1)
+	go func() { done <- next.Wait() }()
+	select {
+	case werr := <-done:
+		took := time.Since(killedAt)
+		if werr != nil {
+			return res, pbt.Fail("build-after-dead-holder-failed", "the build started after the holder was killed failed: %v\n%s\n--- holder\n%s", werr, clipTail(nout(), 800), clipTail(hout(), 400))
+		}
+		res.NonTrivial = true
+		_ = took
+	case <-time.After(5 * time.Second):
+		_ = syscall.Kill(-next.Process.Pid, syscall.SIGKILL)
+		<-done
+		return res, pbt.Fail("stale-lock-held-by-orphan", "the holder (pid %d) was killed %d ms after its command had started; its command keeps sleeping for about 9 s. A new `grog build //:quick` was still not finished 5 s later: the dead build's lock is not released while its child lives\n%s", holder.Process.Pid, c.KillMs, clipTail(nout(), 800))
+	}
+	return res, nil
 }
 
 func runBinary(c BCase) (pbt.Result, error) {
+	if c.Orphan {
+		return runOrphan(c)
+	}
 	res := pbt.Result{}
 	base, err := os.MkdirTemp("", "c10bin-")
 	if err != nil {
@@ -218,6 +307,9 @@ func TestBinary(t *testing.T) {
 	}
 	pbt.Main(t, pbt.Spec[BCase]{ID: "C10", Run: runBinary,
 		Gen: func(t *rapid.T) BCase {
+			if rapid.IntRange(0, 5).Draw(t, "orphan") == 0 {
+				return BCase{Orphan: true, KillMs: rapid.SampledFrom([]int{0, 50, 300, 1000}).Draw(t, "kill_ms")}
+			}
 			w := histeng.GenWS(t, histeng.Profile{MaxTargets: 6, DirOutputs: true, Workers: []int{1, 2, 4}})
 			for i := range w.Targets {
 				w.Targets[i].SlowMs = rapid.SampledFrom([]int{60, 150, 300}).Draw(t, "slow")
